@@ -249,7 +249,14 @@ static void link_nibbles(int pgno, int subno, int mag, unsigned out[6]) {  // X/
   out[4] = ((unsigned)subno >> 8) & 15;
   out[5] = (((unsigned)subno >> 12) & 3) | ((unsigned)((m >> 1) & 1) << 2) | ((unsigned)((m >> 2) & 1) << 3);
 }
-static int rand_pgno(Rng& r) { return (1 + (int)r.below(8)) * 256 + (r.chance(3, 4) ? (int)(r.below(10) << 4 | r.below(10)) : (int)r.below(256)); }
+// Page numbers the station of the current run really transmits (filled by run() from the plan, empty while plans are
+// generated): links inside transmitted pages - TOP titles, FLOF, X/27, MOT - point at existing pages half of the time, as
+// a real service's do, so that navigation data and page titles are found when the viewer asks for them.
+static std::vector<int> g_station_pages;
+static int rand_pgno(Rng& r) {
+  if (!g_station_pages.empty() && r.chance(1, 2)) return g_station_pages[r.below(g_station_pages.size())];
+  return (1 + (int)r.below(8)) * 256 + (r.chance(3, 4) ? (int)(r.below(10) << 4 | r.below(10)) : (int)r.below(256));
+}
 
 enum PageKind { K_LOP = 0, K_LOP_X26, K_LOP_OBJ, K_LOP_LOCAL, K_LOP_PDC, K_POP, K_GPOP, K_DRCS, K_GDRCS, K_MOT, K_MIP, K_BTT, K_AIT, K_MPT, K_MPTEX, K_TRIGGER, K_NIBBLE, K_HEADER, K_N };
 enum PageFlag { PF_X27_0 = 1, PF_X27_123 = 2, PF_X27_4 = 4, PF_X27_5 = 8, PF_X28_0 = 16, PF_X28_1 = 32, PF_X28_4 = 64, PF_X28_3 = 128, PF_ROW24 = 256, PF_ROW25 = 512,
@@ -419,7 +426,7 @@ static void build_page(int kind, int mag, int page, int sub, unsigned ctrl, uint
           int pg = which == 0 ? L.ait : which == 1 ? L.mpt : which == 2 ? L.mptex : which == 3 ? L.ait : rand_pgno(r);
           int fn = which == 0 || which == 3 ? 2 : which == 1 ? 1 : which == 2 ? 3 : (int)r.below(16);
           if (r.chance(1, 10)) pg = (int)r.below(0x1000);
-          top_link(n + i * 8, pg, r.chance(1, 2) ? 0 : (int)r.below(0x10000), fn);
+          top_link(n + i * 8, pg, r.chance(3, 4) ? 0 : (int)r.below(0x10000), fn);
         }
         body.push_back(nibble_packet(mag, y, n));
       }
@@ -723,6 +730,7 @@ struct C01 : World {
 
   Plan generate(uint64_t seed, const std::string& tier) override {
     Plan p; p.world = name(); p.seed = seed;
+    g_station_pages.clear();
     Rng r(seed, "plan");
     bool thorough = tier == "thorough";
     p.knobs["sched_seed"] = (int64_t)(r.next() >> 1);
@@ -798,6 +806,19 @@ struct C01 : World {
       int n = 2 + (int)r.below(3);
       for (int i = 0; i < n; i++) core(r.chance(3, 4) ? K_LOP_OBJ : K_LOP, m1 * 256 + (int)(r.below(10) << 4 | r.below(10)), (r.chance(1, 3) ? PF_X27_4 : 0) | (r.chance(1, 4) ? PF_X28_0 : 0) | PF_DENSE);
       if (r.chance(1, 2)) core(K_MIP, m1 * 256 + 0xFD, 0);
+    }
+    // a station with TOP navigation transmits the complete set: the basic TOP table, the title page(s) it links, often the
+    // multi-page tables (otherwise BTT and AIT meet in one carousel in a few runs in a thousand only, and page titles, TOP
+    // labels and the TOP index page are built from nothing)
+    if (src_ttx && r.chance(1, 3)) {
+      auto top = [&](int kind, int pgno) {
+        PageDef d; d.kind = kind; d.mag = pgno >> 8; d.page = pgno & 255; d.sub = 0; d.seed = (int64_t)r.below(1u << 30); d.flags = 0;
+        d.ctrl = (serial ? ttx::C11_SERIAL : 0) | (r.chance(1, 2) ? ttx::C4_ERASE : 0);
+        car.push_back(d);
+      };
+      top(K_BTT, 0x1F0); top(K_AIT, L.ait); if (r.chance(1, 2)) top(K_AIT, L.ait);
+      if (r.chance(1, 2)) top(K_MPT, L.mpt);
+      if (r.chance(1, 3)) top(K_MPTEX, L.mptex);
     }
     auto add_faults = [&](Op& o) {
       while (o.a.size() < 16) o.a.push_back(0);
@@ -930,6 +951,7 @@ struct C01 : World {
       s.slot_valid[sl] = ok; s.slot_cc[sl] = false; s.slot_frame[sl] = s.frames;
       s.slot_args[sl][0] = pgno; s.slot_args[sl][1] = subno; s.slot_args[sl][2] = level; s.slot_args[sl][3] = rows; s.slot_args[sl][4] = nav;
       if (ok) { s.fetch_ok++; if (level >= 2) s.fetch25_ok++; }
+      if (ok && pgno == 0x900) { c.count("top_index_pages_fetched"); int filled = 0; for (int i = 41; i < s.slot[sl]->rows * 41 && i < 25 * 41; i++) if (s.slot[sl]->text[i].unicode > 0x20) filled++; if (filled > 0) c.count("top_index_pages_with_titles"); }
       c.log("%sfetch %x.%x L%d rows %d nav %d -> %d", cb ? "cb " : "", pgno, subno, level, rows, nav, ok);
     } else if (k == "fetch_cc") {
       int pgno = (int)(op.arg(1) % 16), reset = (int)(op.arg(2) & 1);
@@ -956,6 +978,7 @@ struct C01 : World {
       size_t n = ok ? strnlen(buf, 41) : 0;
       if (ok && n >= 41) c.fail("oracle:title-unterminated", "vbi_page_title(%x) returned an unterminated string", pgno);
       c.log("%stitle %x.%x -> %d len %zu", cb ? "cb " : "", pgno, subno, ok, n);
+      if (ok) c.count("titles_found");
       free(buf);
     } else if (k == "cached") {
       int pgno = pgno_of(op.arg(0)), subno = subno_of(op.arg(1)), r;
@@ -1367,6 +1390,12 @@ struct C01 : World {
       vbi_event_handler_unregister(d, h1, nullptr);
       vbi_decoder_delete(d);
     }
+    g_station_pages.clear();
+    for (auto& op : plan.ops)
+      if (op.kind == "page" && um(op.arg(0), K_N) <= K_LOP_PDC && g_station_pages.size() < 64) {
+        int pg = (((um(op.arg(1), 8) + 7) & 7) + 1) * 256 + um(op.arg(2), 256);
+        if (std::find(g_station_pages.begin(), g_station_pages.end(), pg) == g_station_pages.end()) g_station_pages.push_back(pg);
+      }
     alloc_track_reset();
     St st; st.ctx = &c; g = &st;
     g_in_run = true; g_nheld = 0; g_sim_now = 1.0e9;
